@@ -74,6 +74,7 @@ InputsEvents(st) ==
 InputsCtl(st) ==
     (IF st.pc = "Down" THEN {[k |-> "conn"]} ELSE {[k |-> "cut"]})
     \cup {[k |-> "upd", p |-> 1] : x \in {q \in {1} : st.nupd < MaxUpd}}
+    \cup {[k |-> "app", bit |-> b, on |-> ~st.app[b]] : b \in {"time", "trouble"}}
     \cup (IF st.pc \in {"Down", "Dead"} THEN {} ELSE
             {R(f, st, [ob |-> o]) : f \in {"select", "operate"}, o \in {"a", "b", "a2"}}
             \cup {[R("operate", st, [ob |-> "a"]) EXCEPT !.seq = S16(@ + 1)]}
